@@ -505,7 +505,7 @@ func (C10) Judge(c *Ctx, sc *Scenario) []Violation {
 	}
 
 	// O10.6 eval-all agrees with eval on a single-document input
-	if sc.MetaBool("total") && len(layout) == 1 && len(files) == 1 && combined.Exit == 0 && !strings.HasPrefix(layout[0].Class, "comment-only") && layout[0].Class != "blank" {
+	if sc.MetaBool("total") && len(layout) == 1 && len(files) == 1 && combined.Exit == 0 && hasFullSchema(layout[0].Piece) && !strings.HasPrefix(layout[0].Class, "comment-only") && layout[0].Class != "blank" {
 		ea := sc.Clone()
 		ea.Plan.Readers = nil
 		ea.Argv = append([]string{"ea"}, sc.Argv...)
@@ -665,3 +665,21 @@ func outFormatOf(argv []string, files []File) string {
 }
 
 func squeeze(b []byte) []byte { return bytes.Join(bytes.Fields(b), nil) }
+
+// hasFullSchema: the document still carries every schema key (the shrinker may have removed lines,
+// and a traversal of a missing key is exactly what `total` excludes).
+func hasFullSchema(piece string) bool {
+	for _, k := range []string{"id:", "a:", "b:", "c:", "d:", "e:", "f:", "g:", "x:", "y:", "z:"} {
+		found := false
+		for _, l := range strings.Split(piece, "\n") {
+			if strings.HasPrefix(strings.TrimSpace(l), k) || strings.Contains(l, "{"+k) || strings.Contains(l, ", "+k) {
+				found = true
+				break
+			}
+		}
+		if !found {
+			return false
+		}
+	}
+	return true
+}
